@@ -2,7 +2,7 @@
    Statements only; proofs are in Proofs/ContStoreProofs.v and Proofs/LogProofs.v. *)
 From RipV Require Import Base.Prelude Model.Frames Model.Log Model.ContStore Model.LogBytes
   Model.CapEffects Model.SidecarInv Proofs.LogProofs Proofs.ContStoreProofs Proofs.LogBytesProofs
-  Proofs.CapEffectsProofs Proofs.SidecarInvProofs Model.C02Cases Proofs.C02CasesProofs Model.NoopPlan Proofs.NoopPlanProofs Model.C02Decide Proofs.C02DecideProofs Gen.LogOpen Gen.Effects.
+  Proofs.CapEffectsProofs Proofs.SidecarInvProofs Model.C02Cases Proofs.C02CasesProofs Model.NoopPlan Proofs.NoopPlanProofs Model.C02Decide Proofs.C02DecideProofs Model.LogFile Proofs.LogFileProofs Gen.LogOpen Gen.Effects.
 
 (* one micro-step of any actor running ANY program (well-formed or not) in ANY state leaves the
    log as it was or adds exactly one frame at the end *)
@@ -449,3 +449,94 @@ Theorem c02_generated_decisions_are_the_models :
   gen_ensure_scans_the_log_whenever_memory_misses = true /\ gen_rotate_filters_reject_absent_fields = true.
 Proof. exact (andb_prop _ _ gen_decisions_ok). Qed.
 Print Assumptions c02_generated_decisions_are_the_models.
+
+(* ================= fourth round (builder log02d): the FILE across restarts, whatever state it is in =================
+   Model/LogFile.v: the bytes of events.jsonl under FOpen (EventLog::new and everything that opens the log through it:
+   ContinuityStore::new, SessionEngine::new, the CLI's local mode, build_app), FRead (replay*, last_seq, the read-only
+   capabilities), FTorn d (whatever a crash or a partial write left at the end: d is ANY byte string, with or without
+   line ends, valid JSON or garbage, 1 byte or megabytes) and FAppend line (one O_APPEND write). *)
+
+(* opening is the identity on the file - for every content *)
+Theorem c02_open_preserves_bytes : forall (b : bytes), open_file OKeep b = b.
+Proof. exact open_keep_id. Qed.
+Print Assumptions c02_open_preserves_bytes.
+
+(* any number of opens and reads in any order: the same bytes, for every content *)
+Theorem c02_opens_and_reads_preserve_bytes : forall (ops : list fop) (b : bytes),
+  forallb opens_or_reads ops = true -> ffinal OKeep b ops = b.
+Proof. exact opens_and_reads_keep_bytes. Qed.
+Print Assumptions c02_opens_and_reads_preserve_bytes.
+
+(* append-only across process lifetimes: for every initial content and every history of opens, reads, torn writes and
+   appends, the content at any earlier moment is an exact prefix of the content at any later moment *)
+Theorem c02_prefix_across_restarts_and_torn_tails : forall (b : bytes) (ops1 ops2 : list fop),
+  is_prefix_of (ffinal OKeep b ops1) (ffinal OKeep b (ops1 ++ ops2)).
+Proof. exact history_prefix. Qed.
+Print Assumptions c02_prefix_across_restarts_and_torn_tails.
+
+Theorem c02_prefix_at_every_step_across_restarts : forall (b : bytes) (ops : list fop) (i j : nat) (x y : bytes),
+  (i <= j)%nat -> nth_error (ftrace OKeep b ops) i = Some x -> nth_error (ftrace OKeep b ops) j = Some y ->
+  is_prefix_of x y.
+Proof. exact trace_prefix. Qed.
+Print Assumptions c02_prefix_at_every_step_across_restarts.
+
+(* what the code does with the next frame after a torn tail (bd2ee56: frame + LF in one write; the open does not look
+   at the tail): after any number of restarts and reads the frame is put behind the torn bytes - every earlier byte
+   stays, the file is whole lines again, every earlier line is untouched, and the torn bytes share ONE line with the
+   new frame *)
+Theorem c02_append_after_torn_tail : forall (enc : frame -> bytes) (b d : bytes) (f : frame) (ops : list fop),
+  forallb opens_or_reads ops = true ->
+  ffinal OKeep b (FTorn d :: ops ++ [FAppend (frame_line enc f)]) = b ++ d ++ enc f ++ [10].
+Proof. exact append_after_torn_tail. Qed.
+Print Assumptions c02_append_after_torn_tail.
+
+Theorem c02_append_after_torn_tail_whole_lines : forall (enc : frame -> bytes) (l : list frame) (d : bytes) (f : frame),
+  (forall g, ~ In 10 (enc g)) -> ~ In 10 d ->
+  split_lines (log_bytes enc l ++ d ++ enc f ++ [10]) = (map enc l ++ [d ++ enc f], []).
+Proof. exact append_after_torn_tail_lines. Qed.
+Print Assumptions c02_append_after_torn_tail_whole_lines.
+
+(* FALSE of an open that cuts an unterminated tail off, looking at the last `window` bytes (seeded change C02-10; the
+   64 KiB witness as a small instance: window 4, log "a\n", torn part "bbbb"): the content before the restart is not a
+   prefix of the content after it - and the WHOLE log is gone *)
+Theorem c02_open_cutting_unterminated_tail_refuted :
+  exists (w : N) (b d : bytes),
+    ~ is_prefix_of (ffinal OKeep b [FTorn d]) (ffinal (OCutTail w) b [FTorn d; FOpen])
+    /\ ffinal (OCutTail w) b [FTorn d; FOpen] = [].
+Proof. exact open_cutting_tail_refuted. Qed.
+Print Assumptions c02_open_cutting_unterminated_tail_refuted.
+
+(* ... with a torn part shorter than the window the whole lines survive, the restart still rewrites the file *)
+Theorem c02_open_cutting_short_tail_refuted :
+  exists (w : N) (b d : bytes),
+    ~ is_prefix_of (ffinal OKeep b [FTorn d]) (ffinal (OCutTail w) b [FTorn d; FOpen])
+    /\ ffinal (OCutTail w) b [FTorn d; FOpen] = b.
+Proof. exact open_cutting_tail_small_refuted. Qed.
+Print Assumptions c02_open_cutting_short_tail_refuted.
+
+(* ... in general: no file that ends in anything but LF survives such an open, whatever the window *)
+Theorem c02_open_cutting_tail_never_keeps_a_torn_tail : forall (w : N) (b : bytes) (x : N),
+  w <> 0 -> x <> 10 -> ~ is_prefix_of (b ++ [x]) (open_file (OCutTail w) (b ++ [x])).
+Proof. exact open_cutting_tail_never_keeps_a_torn_tail. Qed.
+Print Assumptions c02_open_cutting_tail_never_keeps_a_torn_tail.
+
+(* ... and invisible on an empty file and on a file of whole lines - every state a test reaches that lets its appends finish *)
+Theorem c02_open_cutting_tail_hidden_on_whole_lines : forall (w : N) (b : bytes),
+  b = [] \/ (exists b', b = b' ++ [10]) -> open_file (OCutTail w) b = b.
+Proof. exact cut_tail_hidden_on_whole_lines. Qed.
+Print Assumptions c02_open_cutting_tail_hidden_on_whole_lines.
+
+(* T1: the file-system effects in the call closure of EventLog::new / of the readers of impl EventLog, read off the
+   source on every run, leave the bytes of an existing log alone - for every content *)
+Theorem c02_generated_open_and_read_paths_keep_bytes : forall (b : bytes),
+  effects_bytes gen_open_effects b = Some b /\ effects_bytes gen_read_effects b = Some b.
+Proof. exact (fun b => conj (open_effects_ok_keep_bytes gen_open_effects b gen_open_effects_ok)
+                            (read_effects_ok_keep_bytes gen_read_effects b gen_read_effects_ok)). Qed.
+Print Assumptions c02_generated_open_and_read_paths_keep_bytes.
+
+(* non-vacuity: (bytes in the file, bytes after the last LF) along a history with a torn tail, two restarts and reads,
+   a glued append, a torn region with a line end inside, a restart, a clean append *)
+Example c02_file_history_demo :
+  model_obs_logfile {| lf_ops := lf_demo_ops; lf_expect := [] |} =
+  [5; 0;  8; 3;  8; 3;  8; 3;  8; 3;  12; 0;  18; 4;  18; 4;  20; 0].
+Proof. exact lf_demo. Qed.
